@@ -50,17 +50,15 @@ class BH:
         for a in g.awaits():
             if a.poll_bb is None:
                 continue
-            ac = awaited_call(self.tr, b, a)
-            if ac is None:
-                continue
-            kind = None
-            acq = None
-            if ac.name in ACQUIRE:
-                kind, acq = "plain", ac
-            elif ac.def_ and ac.def_.startswith("tokio::time::timeout::timeout") and len(ac.args) > 1:
-                inner = peel(self.tr.expand(self.tr.operand(b, ac.args[1], ac.loc)))
-                if inner[0] == "call" and self.tr.call_of(inner).name in ACQUIRE:
-                    kind, acq = "timeout", self.tr.call_of(inner)
-            if kind:
-                out.append((a, kind, ac, acq))
+            for ac in awaited_calls(self.tr, b, a):
+                kind = None
+                acq = None
+                if ac.name in ACQUIRE:
+                    kind, acq = "plain", ac
+                elif ac.def_ and ac.def_.startswith(("tokio::time::timeout::timeout_at", "tokio::time::timeout::timeout")) and len(ac.args) > 1:
+                    inner = peel(self.tr.expand(self.tr.operand(b, ac.args[1], ac.loc)))
+                    if inner[0] == "call" and self.tr.call_of(inner).name in ACQUIRE:
+                        kind, acq = "timeout", self.tr.call_of(inner)
+                if kind:
+                    out.append((a, kind, ac, acq))
         return out
